@@ -714,6 +714,26 @@ impl<'a> RefWriter<'a> {
                 }
                 plain_items.push((*id, lr));
             }
+            // a Length object may itself live in an object stream (only the Length of an object stream's own
+            // dictionary may not, ISO 32000-1 7.5.7): the stream can then only be read once that container is decoded
+            let mut extra_objs: BTreeMap<u32, RObj> = BTreeMap::new();
+            if use_objstm {
+                let mut kept = vec![];
+                for (lid, v, before) in length_objs.drain(..) {
+                    if self.ch.maybe("indirect-length-in-objstm", 1, 2) {
+                        extra_objs.insert(lid.0, RObj::Int(v));
+                        if !packed.is_empty() && self.ch.rng.bool() {
+                            let at = self.ch.rng.usize_below(packed.len());
+                            packed[at].push(lid.0);
+                        } else {
+                            packed.push(vec![lid.0]);
+                        }
+                    } else {
+                        kept.push((lid, v, before));
+                    }
+                }
+                length_objs = kept;
+            }
             for (lid, v, before) in &length_objs {
                 if *before {
                     let off = self.indirect(*lid, &RObj::Int(*v), None);
@@ -745,7 +765,7 @@ impl<'a> RefWriter<'a> {
                             let mut sub_out = std::mem::take(&mut self.out);
                             let base = self.base;
                             self.out = vec![];
-                            self.obj(&rev.objects[&(*n, 0)]);
+                            self.obj(extra_objs.get(n).unwrap_or_else(|| &rev.objects[&(*n, 0)]));
                             std::mem::swap(&mut self.out, &mut sub_out);
                             self.base = base;
                             bodies.push(sub_out);
